@@ -23,7 +23,7 @@ pub static DEF: PropertyDef = PropertyDef {
     exhaustive_note: "all invalid-call kinds x all distinct boundaries of each sampled history",
     generate,
     execute,
-    must_hit: &["fault.rejected_call.fired", "fault.rejected_call.attempted.ContinueWhenCant", "fault.rejected_call.attempted.RemoveMissingFlow", "fault.rejected_call.attempted.BindTwice", "fault.rejected_call.attempted.RemoveUnregisteredObserver"],
+    must_hit: &["fault.rejected_call.fired", "fault.rejected_call.attempted.ContinueWhenCant", "fault.rejected_call.attempted.RemoveMissingFlow", "fault.rejected_call.attempted.BindTwice", "fault.rejected_call.attempted.RemoveUnregisteredObserver", "fault.rejected_call.attempted.JumpInsideFunction"],
     timeout_s: 30,
     hang_class: None,
     sub_builds: &[],
@@ -47,6 +47,7 @@ pub fn kinds() -> Vec<InvalidKind> {
         JumpUnknown { reset: true },
         JumpHostile { reset: false },
         JumpHostile { reset: true },
+        JumpInsideFunction,
         RemoveMissingFlow,
         RemoveDefaultFlow,
         RemoveUnregisteredObserver { specific: true },
@@ -77,6 +78,7 @@ fn generate(corpus: &Corpus, tier: Tier, run: u64, rng: &mut Rng) -> Option<Case
         resets: rng.chance(1, 8),
         continue_max: rng.chance(1, 3),
         jump_functions: false,
+        eval_any_knot: false,
     };
     let mut ops = gen_script(rng, &prog, &cfg);
     // tail: plain play plus a host assignment to an observed variable so that a leaked
@@ -133,7 +135,7 @@ fn execute(case: &Case) -> CaseResult {
             let must_reject = matches!(
                 name.as_str(),
                 "ContinueWhenCant" | "ContinueAsyncWhenCant" | "ChooseOutOfRange" | "ChooseHuge" | "SetUndeclared" | "ObserveUndeclared"
-                    | "EvalUnknown" | "EvalEmpty" | "EvalWhitespace" | "JumpUnknown" | "JumpHostile" | "BindTwice" | "RemoveDefaultFlow"
+                    | "EvalUnknown" | "EvalEmpty" | "EvalWhitespace" | "JumpUnknown" | "JumpHostile" | "JumpInsideFunction" | "BindTwice" | "RemoveDefaultFlow"
             );
             let inj = Injection { prop: "C09", faults: &faults, expect_err: must_reject, skip: &no_skip, class_prefix: "leaked-change", either_result: !must_reject };
             let out = inject_at(case, &r, p, &inj);
